@@ -793,6 +793,17 @@ def cases(tier, seed):
     add('simple', ['grid', 3, 4])
     add('simple', ['torus', 3, 4])
     add('simple', ['grid', -1, 2])
+    # sizes that are numbers but not integers: refused, never rounded
+    for spec_ in (['grid', '2.5', 3], ['torus', 3, '4.5'], ['grid', 3, 3, '3.999'], ['grid', '1e1', 2],
+                  ['grid', 'inf', 3], ['grid', '1e400'], ['torus', 'nan', 3], ['complete', '2.5'],
+                  ['empty', '3.5'], ['gnm', 4, '2.5'], ['gnd', '4.5', 2], ['gnd', 4, '1.5'],
+                  ['complete', 2, '2.5']):
+        add('simple', spec_, mode='plain')
+    for spec_ in (['path', '2.5'], ['tree', '1.5'], ['pyramid', '2.5'], ['pyramid', 'inf']):
+        add('dag', spec_)
+    for spec_ in (['complete', '2.5', 2], ['empty', 2, '2.5'], ['glrm', 2, 2, '1.5'], ['glrd', 2, 3, '1.5'],
+                  ['regular', 2, 2, '1.5'], ['shift', 3, 3, '0.5']):
+        add('bipartite', spec_, mode='plain')
     add('simple', ['grid'])
     add('simple', ['torus'])
     for N in ints:
@@ -949,6 +960,12 @@ def cases(tier, seed):
         add('dag', ['pyramid', 2], save=fmt)
         add('dag', ['tree', 2], save=fmt)
         add('digraph', ['path', 3], save=fmt)
+        # the one-vertex DAGs and other graphs whose last vertex is isolated
+        add('dag', ['pyramid', 0], save=fmt)
+        add('dag', ['tree', 0], save=fmt)
+        add('dag', ['path', 0], save=fmt)
+        add('simple', ['empty', 3], save=fmt)
+        add('simple', ['empty', 1], save=fmt)
         if fmt != 'dot' or thorough:
             add('simple', ['gnm', 4, 3], save=fmt, mode='plain', max_dev=2, max_execs=300)
             add('simple', ['gnd', 4, 2], save=fmt, mode='plain', max_dev=1, max_execs=300)
